@@ -190,7 +190,10 @@ CHECKS["C09"] = dict(
          "whole-stack), depth bounds how deep it reaches, and stack_effect_sound proves against a concrete semantics (any value type, any "
          "helper results, any branch, any iteration count) that a bound d <= k keeps pre of pre ++ args (|args| = k) as the same untouched "
          "list. Kernel-checked table theorems: every entry's bound is exactly its arity, and the unbounded entries are exactly the "
-         "documented whole-stack operations. Tie: the table is regenerated on every run; sentinel-prefix runs of every key and of "
+         "documented whole-stack operations. The meaning given to pop(stack, k, ctx) in that semantics is itself proved of a model that follows the "
+         "loop of helpers.pop (pop_frame: exactly the top k leave, top first, everything below is the same list, no input is read; pop_retain: "
+         "under retain_popped the stack is unchanged; pop_short: on a short stack the missing values are the next inputs). "
+         "Tie: the table is regenerated on every run; the pop model against the real helper on every (stack length, count, flags) up to 5; sentinel-prefix runs of every key and of "
          "modifier x element on generated argument tuples (identity and contents of the prefix, also on exceptions).",
     note=COMMON_NOTE + "T7: statements that do not mention `stack` are neutral (a helper could reach the stack through ctx.stacks[-1]): validated by the sentinel "
          "runs, which found exactly that for printing a function value (known finding F31). Modifier templates pop a run-time arity: sentinel runs only.",
